@@ -62,6 +62,32 @@ pub fn same_shape(a: &Snapshot, b: &Snapshot) -> Result<(), String> {
     Ok(())
 }
 
+/// Do two layouts denote the same circuit description?  Selectors row by row, public-input rows,
+/// and the copy-constraint *partition* of the 4n cells (witness labels are names: two wirings that
+/// induce the same partition are the same description).
+pub fn same_description(a: &Snapshot, b: &Snapshot) -> bool {
+    if a.selectors != b.selectors {
+        return false;
+    }
+    let ra: Vec<usize> = a.public_inputs.iter().map(|(r, _)| *r).collect();
+    let rb: Vec<usize> = b.public_inputs.iter().map(|(r, _)| *r).collect();
+    if ra != rb || a.wires.len() != b.wires.len() {
+        return false;
+    }
+    let canon = |s: &Snapshot| -> Vec<usize> {
+        let mut names = std::collections::BTreeMap::new();
+        let mut out = Vec::with_capacity(s.wires.len() * 4);
+        for w in 0..4 {
+            for row in &s.wires {
+                let next = names.len();
+                out.push(*names.entry(row[w]).or_insert(next));
+            }
+        }
+        out
+    };
+    canon(a) == canon(b)
+}
+
 /// Evaluate the compiled layout on the instance's wire values.
 pub fn evaluate(compiled: &Snapshot, instance: &Snapshot) -> RowVerdict {
     let rows = compiled.selectors.len();
